@@ -49,6 +49,8 @@ THEOREMS = [_P + n for n in [
     "Scan.rewind_needs_discipline",
     "Scan.tokenizer_rewind_sites_known", "Scan.tokenizer_guarded_sites_guarded", "Scan.tokenizer_current_writes_known",
     "Scan.tokenizer_scan_loop_shape", "Scan.parser_glue_shape",
+    "Scan.tokenizer_funnel_catches_exception", "Scan.tokenize_outcome", "Scan.tokenize_outcome_current_source",
+    "Scan.tokenize_funnel_needs_broad_catch",
 ]]
 
 # step budgets for the search oracle, calibrated on the clean tree with ≥ 10x margin (cov["calibration"] in the evidence
@@ -154,6 +156,24 @@ def tokenizer_facts(chk: Check):
                         writes.append((name, "= " + _src(node.value)))
             if isinstance(node, ast.AugAssign) and _is_self_attr(node.target, "_current"):
                 writes.append((name, type(node.op).__name__ + "= " + _src(node.value)))
+    # the error funnel of TokenizerCore.tokenize: which exception types the `try: self._scan()` catches and what it raises
+    funnel = {"handlers": [], "raises": [], "guards_scan": False}
+    if "tokenize" in funcs:
+        for tr in [n for n in funcs["tokenize"].body if isinstance(n, ast.Try)]:
+            funnel["guards_scan"] = any(isinstance(c, ast.Call) and _is_self_attr(c.func, "_scan") for st in tr.body for c in ast.walk(st))
+            for h in tr.handlers:
+                if h.type is None:
+                    funnel["handlers"].append("BaseException")
+                elif isinstance(h.type, ast.Tuple):
+                    funnel["handlers"] += [_src(e) for e in h.type.elts]
+                else:
+                    funnel["handlers"].append(_src(h.type))
+                for st in h.body:
+                    for r in ast.walk(st):
+                        if isinstance(r, ast.Raise) and r.exc is not None:
+                            funnel["raises"].append(_src(r.exc.func) if isinstance(r.exc, ast.Call) else _src(r.exc))
+    else:
+        chk.broken.append({"kind": "translator", "what": "C05 translator: structure changed: TokenizerCore.tokenize not found"})
     scan = funcs["_scan"]
     wh = [n for n in scan.body if isinstance(n, ast.While)]
     while_test = _src(wh[0].test) if wh else "?"
@@ -162,7 +182,25 @@ def tokenizer_facts(chk: Check):
         for st in wh[0].body:
             if isinstance(st, ast.Assign) and any(isinstance(tg, ast.Name) and tg.id == "offset" for tg in st.targets):
                 offset = _src(st.value)
-    return {"rewind": rewind, "guarded": guarded, "plain": plain, "writes": writes, "while": while_test, "offset": offset}
+    return {"rewind": rewind, "guarded": guarded, "plain": plain, "writes": writes, "while": while_test, "offset": offset,
+            "funnel": funnel}
+
+
+def wrapper_facts(chk: Check):
+    """the thin wrappers between the public API and TokenizerCore.tokenize / Parser.parse: their bodies must stay
+    pass-through (a try/except added there would be a second funnel the pin above does not see)"""
+    out = {}
+    for rel, cls, fn in [("tokens.py", "_TokenizerBase", "tokenize"), ("tokens.py", "Tokenizer", "tokenize"),
+                         ("dialects/dialect.py", "Dialect", "tokenize"), ("dialects/dialect.py", "Dialect", "parse"),
+                         ("parser.py", "Parser", "parse")]:
+        path = os.path.join(REPO, "sqlglot", rel)
+        try:
+            funcs = _class_funcs(ast.parse(open(path, encoding="utf-8").read()), cls)
+        except Exception:  # noqa
+            funcs = {}
+        if fn in funcs:
+            out[f"{cls}.{fn}"] = sum(1 for n in ast.walk(funcs[fn]) if isinstance(n, ast.Try))
+    return out
 
 
 def parser_facts(chk: Check):
@@ -221,6 +259,12 @@ def translate(chk: Check) -> str:
         "def currentWrites : List (String × String) := [" + ", ".join(f"({lean_str(f)}, {lean_str(v)})" for f, v in tf["writes"]) + "]\n",
         f"def scanWhileTest : String := {lean_str(tf['while'])}\n",
         f"def scanOffset : String := {lean_str(tf['offset'])}\n",
+        "-- TokenizerCore.tokenize: exception types caught around `self._scan()` and what the handler raises\n",
+        _lean_strs("tokenizeHandlers", tf.get("funnel", {}).get("handlers", [])),
+        _lean_strs("tokenizeHandlerRaises", tf.get("funnel", {}).get("raises", [])),
+        f"def tokenizeTryGuardsScan : Bool := {'true' if tf.get('funnel', {}).get('guards_scan') else 'false'}\n",
+        "-- number of try statements in the pass-through wrappers between the public API and the two funnels\n",
+        "def wrapperTryCounts : List (String × Nat) := [" + ", ".join(f"({lean_str(k)}, {v})" for k, v in sorted(wrapper_facts(chk).items())) + "]\n",
         "-- Parser glue\n",
         _lean_strs("retreatBody", pf["retreat"]),
         _lean_strs("tryParseFinally", pf["try_finally"]),
@@ -257,14 +301,17 @@ def load_dialects(chk=None) -> list:
     *_, Dialect, Dialects = sg()
     if _USABLE:
         return _USABLE
-    for d in Dialects:
+    import sqlglot.dialects as dialects_pkg
+    # the Dialects enum has no entry for every dialect module (singlestore): enum ∪ DIALECT_MODULE_NAMES
+    names = {d.value for d in Dialects} | set(getattr(dialects_pkg, "DIALECT_MODULE_NAMES", ()) or ())
+    for name in sorted(names):
         try:
-            with_watchdog(lambda: Dialect.get_or_raise(d.value or None).tokenizer_class.KEYWORDS, 15.0)
-            _USABLE.append(d.value)
+            with_watchdog(lambda: Dialect.get_or_raise(name or None).tokenizer_class.KEYWORDS, 15.0)
+            _USABLE.append(name)
         except BaseException as e:  # noqa
             if chk is not None:
-                chk.broken.append({"kind": "correspondence", "what": f"dialect {d.value!r} cannot be loaded: {type(e).__name__}: {str(e)[:120]}"})
-                chk.note(f"dialect {d.value!r} cannot be loaded ({type(e).__name__}); left out")
+                chk.broken.append({"kind": "correspondence", "what": f"dialect {name!r} cannot be loaded: {type(e).__name__}: {str(e)[:120]}"})
+                chk.note(f"dialect {name!r} cannot be loaded ({type(e).__name__}); left out")
     return _USABLE
 
 
@@ -461,7 +508,7 @@ class Monitor:
         *_, Dialect, Dialects = sg()
         mon = self
         classes = [P]
-        for d in list(_USABLE) or [x.value for x in Dialects]:
+        for d in list(_USABLE) or load_dialects():
             try:
                 pc = Dialect.get_or_raise(d or None).parser_class
             except Exception:  # noqa
@@ -1016,6 +1063,88 @@ def gen_input(rng, gen: Gen, dialect_keywords=None, table_words=None):
 _KW_CACHE: dict = {}
 
 
+def case_variants(k: str) -> list:
+    mixed = "".join(c.upper() if i % 2 else c.lower() for i, c in enumerate(k))
+    out = []
+    for v in (k, k.lower(), k.upper(), mixed, k.swapcase()):
+        if v not in out:
+            out.append(v)
+    return out
+
+
+TOK_CONTINUATIONS = ["", "AB'", "ab", " ", "'", '"', "`", "$", "\\", "\n", "1F'", "{K}", " x {K}", "]", "*/", "$x$"]
+
+
+def tokenizer_delimiters(dialect) -> dict:
+    """keys of the live tokenizer tables of this dialect: {"delims": quotes/format strings/identifiers/comments,
+    "trie": keys of the keyword trie that are not plain words, "commands": spellings of COMMANDS / COMMAND_PREFIX_TOKENS,
+    "keywords": every KEYWORDS key}"""
+    *_, Dialect, _ = sg()
+    tk = Dialect.get_or_raise(dialect or None).tokenizer_class
+    delims = set()
+    for name in ("_QUOTES", "_FORMAT_STRINGS", "_IDENTIFIERS", "_COMMENTS"):
+        delims |= {k for k in (getattr(tk, name, {}) or {}) if isinstance(k, str) and k}
+    kws = {k for k in (getattr(tk, "KEYWORDS", {}) or {}) if isinstance(k, str) and k}
+    trie = {k for k in kws if not k.replace("_", "").isalnum()}
+    inv: dict = {}
+    for k, tt in (getattr(tk, "KEYWORDS", {}) or {}).items():
+        if k and k.replace("_", "").isalnum():
+            inv.setdefault(tt, k)
+    commands = sorted({inv[t] for t in (getattr(tk, "COMMANDS", ()) or ()) if t in inv})
+    prefixes = sorted({inv[t] for t in (getattr(tk, "COMMAND_PREFIX_TOKENS", ()) or ()) if t in inv} | {";"})
+    return {"delims": sorted(delims), "trie": sorted(trie), "commands": commands, "prefixes": prefixes, "keywords": sorted(kws)}
+
+
+def tokenizer_stream(dialect, rng, quick=True):
+    """adversarial tokenizer inputs derived from the live tables: every delimiter / trie key in every letter case (the trie
+    is case-insensitive, the dict lookups behind it are not), followed by end of input / a body / another delimiter"""
+    t = tokenizer_delimiters(dialect)
+    words = list(t["delims"]) + list(t["trie"]) + t["commands"]
+    extra = [k for k in t["keywords"] if k not in set(words)]
+    words += extra if not quick else rng.sample(extra, min(25, len(extra)))
+    for k in words:
+        for v in case_variants(k):
+            for cont in TOK_CONTINUATIONS:
+                body = v + cont.replace("{K}", v)
+                yield body
+                yield "SELECT " + body
+                if not quick:
+                    yield "SELECT a" + body + " FROM t"
+
+
+def tokenizer_stress(dialect, n=2000):
+    """depth / length stress for the tokenizer-only phase: long repetitions of command keywords (nested command scanning),
+    nesting openers and delimiters"""
+    t = tokenizer_delimiters(dialect)
+    for pre in t["prefixes"][:3]:
+        for c in t["commands"][:6]:
+            yield (pre + " " + c + " ") * n
+    for c in t["commands"][:4]:
+        yield (c + " ") * n
+        yield (c + " x; ") * n
+    for unit in ["(", "[", "{", "/*", "/* x */", "--\n", "CASE ", "SELECT (", "'", "''", '"', "$$", "$a$", "x.", "1e", "0x", "((a))", ";", "1_", "\\"]:
+        yield unit * n
+    for d in t["delims"][:12]:
+        yield (d + " ") * n
+
+
+def tokenize_only(sql, dialect):
+    """tokenizer-only oracle: None if `tokenize` returns or raises a sqlglot error within its step budget"""
+    *_, errors, _, _, Dialect, _ = sg()
+    MON.install()
+    MON.reset()
+    MON.t_cap = K_TOKENIZE * (len(sql) + 1)
+    try:
+        with_watchdog(lambda: Dialect.get_or_raise(dialect or None).tokenize(sql))
+        return None
+    except errors.SqlglotError:
+        return None
+    except BaseException as e:  # noqa
+        return type(e).__name__
+    finally:
+        MON.reset()
+
+
 _TK_CACHE: dict = {}
 
 KW_CONTEXTS = ["SELECT x {K}", "SELECT a FROM t WHERE x = 1 {K}", "SELECT a FROM t {K}", "SELECT * FROM a JOIN b ON a.x = b.x {K}",
@@ -1252,7 +1381,8 @@ def consider(chk: Check, sql, dialect, level, write, verdict, tag="search"):
         else:
             msql = sql
         key = finding_key(verdict, dialect, skeleton(msql))
-    what = (f"{verdict['phase']} of {msql!r} (dialect={dialect or 'base'}, error_level={level}"
+    shown = repr(msql) if len(msql) <= 300 else repr(msql[:300]) + f"… ({len(msql)} characters, full text in the replay)"
+    what = (f"{verdict['phase']} of {shown} (dialect={dialect or 'base'}, error_level={level}"
             f"{', write=' + str(write) if write is not None else ''}) "
             + (f"did not finish within its budget: {verdict['msg']}" if verdict["exc"] in ("StepBudget", "Timeout", "RecursionError")
                else f"leaked {verdict['exc']}: {verdict['msg']} [in {verdict['frame']}]"))
@@ -1758,6 +1888,19 @@ def search(chk: Check, hints: list, budget_s: float) -> None:
             if len(chk.violations) >= 8:
                 break
             one(sql, d, LEVELS[1 + (i % 3)], None, "element-sweep")
+    # tokenizer-only phase: adversarial delimiter / keyword-case stream and length stress, per dialect, from the live tables
+    n_tok = 0
+    stress_dialects = dialects if not chk.quick else sorted({"", "dune"} & set(dialects)) + rng.sample(dialects, min(3, len(dialects)))
+    for d in dialects:
+        stream = list(tokenizer_stream(d, rng, chk.quick))
+        if d in stress_dialects:
+            stream += list(tokenizer_stress(d, chk.pick(2000, 3000)))
+        for sql in stream:
+            n_tok += 1
+            if tokenize_only(sql, d) is not None and len(chk.violations) < 8:
+                one(sql, d, "IMMEDIATE", None, "tokenizer-stream")
+    chk.cov["tokenizer_stream_inputs"] = n_tok
+    chk.count("input:tokenizer-only", n_tok)
     # deterministic sweep: every key that a dialect adds to / overrides in a loop-driving dispatch table (and, for the base
     # parser, every such key) after each left context, followed by each "wrong" continuation
     n_sweep = 0
